@@ -50,6 +50,8 @@ var glTargets = []glTarget{
 	{pkg: "net", recv: "", name: "IsPrivateAddress"},
 	{pkg: "net", recv: "", name: "RequirePublicIP"},
 	{pkg: "ipinfo", recv: "", name: "GetIPInfoFromIP"},
+	{pkg: "service", recv: "serverSaltGenerator", name: "splitSalt"},
+	{pkg: "service", recv: "serverSaltGenerator", name: "IsServerSalt", opaque: map[string]bool{"getTag": true}},
 	{pkg: "service", recv: "", name: "matchesIP", listElem: "CipherEntry"},
 	{pkg: "service", recv: "cipherList", name: "SnapshotForClientIP", listElem: "CipherEntry"},
 	{pkg: "service", recv: "cipherList", name: "MarkUsedByClientIP", listElem: "CipherEntry"},
@@ -88,6 +90,7 @@ type glFn struct {
 	alias     map[types.Object]glAlias // pointer local -> where its object lives (a map element)
 	ptrLocal  map[types.Object]string    // pointer locals with a nil flag: name of the flag
 	elemAlias map[types.Object]*ast.Ident // pointer local obtained by e.Value.(*T): the element variable e
+	funcLits  map[types.Object]*ast.FuncLit // locals bound to a function literal (only ever handed to sync.Once.Do)
 	used    map[string]bool
 	g       *golean
 }
@@ -170,6 +173,8 @@ func (f *glFn) addExtra(name, typ string) {
 		}
 	}
 	f.extras = append(f.extras, glExtra{name, typ})
+	// alphabetical: the signature must not depend on which parameter the body happens to use first
+	sort.Slice(f.extras, func(i, j int) bool { return f.extras[i].name < f.extras[j].name })
 }
 
 // ---- types ----
@@ -771,6 +776,10 @@ func (f *glFn) call(c *ast.CallExpr, value bool) string {
 		return "(decide (" + f.expr(sel.X) + " > " + f.expr(c.Args[0]) + "))"
 	case "time.Time.Before":
 		return "(decide (" + f.expr(sel.X) + " < " + f.expr(c.Args[0]) + "))"
+	case "fmt.Sprintf", "fmt.Sprint":
+		return "GoRT.formatted"
+	case "bytes.Equal":
+		return "(decide (" + f.expr(c.Args[0]) + " = " + f.expr(c.Args[1]) + "))"
 	case "time.Duration.Seconds":
 		return "(GoRT.seconds " + f.expr(sel.X) + ")"
 	case "errors.New":
@@ -788,6 +797,11 @@ func (f *glFn) call(c *ast.CallExpr, value bool) string {
 			return f.fail(c, "Once.Do as a value")
 		}
 		lit, ok := c.Args[0].(*ast.FuncLit)
+		if !ok {
+			if obj := f.objOf(c.Args[0]); obj != nil && f.funcLits[obj] != nil {
+				lit, ok = f.funcLits[obj], true
+			}
+		}
 		if !ok {
 			return f.fail(c, "Once.Do of a non-literal")
 		}
@@ -876,6 +890,16 @@ func (f *glFn) call(c *ast.CallExpr, value bool) string {
 		}
 	}
 	// --- opaque package-level functions and interface methods: parameters ---
+	if rn != "" && sel != nil && f.t.opaque[fn.Name()] && value {
+		ats := []string{f.leanType(f.typeOf(sel.X))}
+		as := []string{f.expr(sel.X)}
+		for i := 0; i < sig.Params().Len(); i++ {
+			ats = append(ats, f.leanType(sig.Params().At(i).Type()))
+			as = append(as, f.expr(c.Args[i]))
+		}
+		f.addExtra(lid(fn.Name()), strings.Join(ats, " → ")+" → "+f.resultType(sig))
+		return "(" + lid(fn.Name()) + " " + strings.Join(as, " ") + ")"
+	}
 	if rn == "" && f.t.opaque[fn.Name()] {
 		var ats []string
 		var as []string
@@ -1174,6 +1198,25 @@ func (f *glFn) assign(lhs ast.Expr, rhs string) string {
 		return f.assign(x.X, rhs)
 	case *ast.SelectorExpr:
 		if sel, ok := f.p.TypesInfo.Selections[x]; ok && sel.Kind() == types.FieldVal {
+			if ta, ok := x.X.(*ast.TypeAssertExpr); ok {
+				// e.Value.(*T).field = v: a store into the object the element points to
+				if se, ok := ta.X.(*ast.SelectorExpr); ok && se.Sel.Name == "Value" {
+					if eid, ok := se.X.(*ast.Ident); ok && isNamed(derefT(f.typeOf(eid)), "container/list", "Element") && f.recvInOut {
+						en := f.idName(eid)
+						out := en + " := { " + en + " with Value := { " + en + ".Value with " + lid(x.Sel.Name) + " := " + rhs + " } }"
+						recv := f.fd.Recv.List[0].Names[0]
+						if st, ok := derefT(f.p.TypesInfo.Defs[recv].Type()).Underlying().(*types.Struct); ok {
+							for i := 0; i < st.NumFields(); i++ {
+								if isNamed(derefT(st.Field(i).Type()), "container/list", "List") {
+									rn, fn := f.idName(recv), lid(st.Field(i).Name())
+									out += "\n" + rn + " := { " + rn + " with " + fn + " := (GoRT.setValue " + rn + "." + fn + " " + en + ".id " + en + ".Value) }"
+								}
+							}
+						}
+						return out
+					}
+				}
+			}
 			base := f.expr(x.X)
 			return f.assign(x.X, "{ "+base+" with "+lid(x.Sel.Name)+" := "+rhs+" }")
 		}
@@ -1228,6 +1271,9 @@ func (f *glFn) stmt(s ast.Stmt, ind int) {
 		f.block(x.List, ind)
 	case *ast.DeclStmt:
 		gd, ok := x.Decl.(*ast.GenDecl)
+		if ok && gd.Tok == token.CONST {
+			return // constants are folded where they are used
+		}
 		if !ok || gd.Tok != token.VAR {
 			f.fail(s, "declaration")
 			return
@@ -1342,11 +1388,46 @@ func (f *glFn) stmt(s ast.Stmt, ind int) {
 			f.fail(s, "assignment shape")
 			return
 		}
+		if len(x.Lhs) == 1 && x.Tok == token.DEFINE {
+			if lit, ok := x.Rhs[0].(*ast.FuncLit); ok {
+				if obj := f.objOf(x.Lhs[0]); obj != nil {
+					if f.funcLits == nil {
+						f.funcLits = map[types.Object]*ast.FuncLit{}
+					}
+					f.funcLits[obj] = lit // translated where it is run
+					return
+				}
+			}
+			// a pointer to a basic value aliases a variable or a field: not in the subset
+			if p, ok := f.typeOf(x.Lhs[0]).(*types.Pointer); ok {
+				if _, isB := p.Elem().Underlying().(*types.Basic); isB {
+					f.fail(s, "local pointer to a basic value")
+					return
+				}
+			}
+		}
 		if len(x.Lhs) > 1 {
 			f.fail(s, "parallel assignment")
 			return
 		}
 		f.emit(ind, f.defOrAssign(x, 0, f.exprAs(x.Rhs[0], f.typeOf(x.Lhs[0]))))
+		if ie, ok := x.Rhs[0].(*ast.IndexExpr); ok {
+			if m, ok := f.typeOf(ie.X).Underlying().(*types.Map); ok && isPtrToRepoStruct(m.Elem()) {
+				// x := m[k] for a pointer-valued map: x points to the entry (nil when there is none)
+				if obj := f.objOf(x.Lhs[0]); obj != nil {
+					f.setAlias(obj, ie.X, ie.Index)
+					_, had := f.ptrLocal[obj]
+					flag := f.nilFlag(obj)
+					okv := "(GoMap.contains " + f.expr(ie.X) + " " + f.expr(ie.Index) + ")"
+					if had {
+						f.emit(ind, flag+" := (!"+okv+")")
+					} else {
+						f.emit(ind, "let mut "+flag+" := (!"+okv+")")
+					}
+				}
+				return
+			}
+		}
 		if ta, ok := x.Rhs[0].(*ast.TypeAssertExpr); ok {
 			// c := e.Value.(*T): c points to the object the element e points to
 			if se, ok := ta.X.(*ast.SelectorExpr); ok && se.Sel.Name == "Value" {
@@ -1798,6 +1879,27 @@ func (f *glFn) translate() {
 	}
 	for _, s := range list {
 		f.stmt(s, 1)
+	}
+	// a body that ends in panic(...): the statement after it is never reached, but the `do` block needs a value
+	if n := len(list); n > 0 && sig.Results().Len() > 0 {
+		if es, ok := list[n-1].(*ast.ExprStmt); ok {
+			if c, ok := es.X.(*ast.CallExpr); ok {
+				if id, ok := c.Fun.(*ast.Ident); ok && id.Name == "panic" {
+					var parts []string
+					for _, io := range f.inouts {
+						parts = append(parts, lid(io))
+					}
+					for i := 0; i < sig.Results().Len(); i++ {
+						if isPtrResult(sig.Results().At(i).Type()) {
+							parts = append(parts, "none")
+						} else {
+							parts = append(parts, f.g.zero(sig.Results().At(i).Type(), f.t.strBytes))
+						}
+					}
+					f.emit(1, "return "+tuple(parts)+"  -- unreachable: the panic above ends the function")
+				}
+			}
+		}
 	}
 	// falling off the end
 	if sig.Results().Len() == 0 {
